@@ -584,6 +584,15 @@ def install(R):
     R.fns["itertools.combinations"] = lambda E, it, r: _Gen([tuple(c) for c in _it.combinations(_iter_conc(E, it), r)])
     R.fns["itertools.combinations_with_replacement"] = lambda E, it, r: _Gen([tuple(c) for c in _it.combinations_with_replacement(_iter_conc(E, it), r)])
     R.fns["itertools.chain.from_iterable"] = lambda E, its: _Gen([x for it in E.iterate_concrete(its) for x in E.iterate_concrete(it)])
+    R.fns["scipy.sparse.issparse"] = lambda E, X: False if isinstance(X, NdArr) else (_ for _ in ()).throw(Unsupported("issparse"))
+    R.fns["sklearn.utils.extmath.row_norms"] = lambda E, X, squared=False: NdArr.fresh("row_norms", (X.shape[0],), "real")
+
+    def _kmeans_predict(E, self_obj, X, **kw):
+        """KMeans.predict(self, X): index of the nearest centre (row-wise)"""
+        out = NdArr.fresh("nearest", (X.shape[0],), "int")
+        E.trace.append(dict(op="KMeans.predict", obj=self_obj, X=X, result=out))
+        return out
+    R.fns["sklearn.cluster.KMeans.predict"] = _kmeans_predict
     R.fns["scipy.sparse.isspmatrix"] = lambda E, X: False if isinstance(X, NdArr) else (_ for _ in ()).throw(Unsupported("isspmatrix"))
     R.fns["sklearn.utils.check_array"] = lambda E, X, **kw: X
 
